@@ -280,11 +280,13 @@ func (d Decimal) Div(input Decimal) Decimal {
 
 // FloorDiv divides d by input and rounds down.
 func (d Decimal) FloorDiv(input Decimal) (Integer, error) {
-	result := decimal.Decimal(d).Div(decimal.Decimal(input)).IntPart()
-	if (result < math.MinInt32) || (result > math.MaxInt32) {
+	// QuoRem with precision 0 yields the quotient truncated toward zero; Div would
+	// first round to 16 places (0.99999999999999999999 div 1 must be 0, not 1).
+	quotient, _ := decimal.Decimal(d).QuoRem(decimal.Decimal(input), 0)
+	if quotient.LessThan(decimal.NewFromInt(math.MinInt32)) || quotient.GreaterThan(decimal.NewFromInt(math.MaxInt32)) {
 		return 0, ErrIntOverflow
 	}
-	return Integer(int32(result)), nil
+	return Integer(int32(quotient.IntPart())), nil
 }
 
 // Mod computes d % input.
